@@ -107,7 +107,34 @@ def specs(tier: str):
                     if not gast.well_formed(rules):
                         raise common.HarnessError("family produced an ill-formed grammar")
                     out.append(engine.Spec(rules, [g[0] for g in grp], ins, "zero", f"trivia({pack},{tv},n<={n},L={L})"))
-    return out + families.extra_specs("zero", tier) + families.skip_specs("zero", tier, full=True)
+    return out + families.extra_specs("zero", tier) + families.skip_specs("zero", tier, full=True) + backtrack_specs(tier) + families.explicit_trivia_specs("zero", tier)
+
+
+def backtrack_specs(tier: str):
+    """A rule with its own atomicity called inside something that is then abandoned (or inside a predicate), followed by a place where
+    implicit trivia is or is not allowed: atomic depth and pair hiding must be exactly what they were before the abandoned call."""
+    S, R = families.S, families.R
+    out = []
+    bodies = {"a": S("a"), "a a?": ("seq", (S("a"), ("opt", S("a")))), "w a": ("seq", (R("w"), S("a")))}
+    helpers = []
+    for hm in ("", "_", "@", "$", "!"):
+        for bi, (bl, hb) in enumerate(bodies.items()):
+            helpers.append((f"h{len(helpers)}", hm, hb))
+    helpers = tuple(helpers) + (("w", "", S("b")),)
+    starts = []
+    for h in helpers[:-1]:
+        H = R(h[0])
+        tail = ("seq", (S("b"), S("b")))
+        for wrapped in (("grp", ("alt", (("seq", (H, S("!"))), H))), ("seq", (("opt", ("grp", ("seq", (H, S("!"))))), H)), ("seq", (("and", H), H)), ("seq", (("not", ("grp", ("seq", (H, S("!"))))), H)),
+                        ("seq", (("star", ("grp", ("seq", (H, S("!"))))), H)), ("grp", ("alt", (("seq", (H, H, S("!"))), H)))):
+            for m0 in ("", "@", "$", "!"):
+                starts.append((f"r{len(starts)}", m0, ("seq", (wrapped, tail))))
+    for tv, sigma, L in (("ws", "ab ", 5 if tier == "thorough" else 4), ("ws_loud", "ab ", 4)):
+        ins = families.inputs(sigma, L)
+        for i in range(0, len(starts), BATCH):
+            grp = starts[i:i + BATCH]
+            out.append(engine.Spec(families.TRIVIA[tv] + helpers + tuple(grp), [g[0] for g in grp], ins, "zero", f"atomic-backtrack({tv},L={L})"))
+    return out
 
 
 def run(tier: str) -> int:
@@ -117,7 +144,8 @@ def run(tier: str) -> int:
         rule="start rule bodies: every expression with <= n nodes over {\"a\",\"b\",n,at,cp,na,sl} (helper packs P1-P5 give @ $ ! _ rules with sequences, repetitions, optionals, predicates and modifier nestings of depth 3-4), "
              "all unary operators and ~ |, x start-rule modifier x trivia configuration (none / WHITESPACE silent / non-silent / COMMENT two-element / both / choice body / one-char comment / both non-silent) "
              "x every input over {a,b}+trivia symbols up to length L, in all four modes against the reference model; start rules are batched 40 per grammar and failing cases are re-run on the isolated rule; "
-             "a case is non-trivial when the reference run backtracked (incl. giving back trivia) or returned pairs" + families.EXTRA_RULE_TEXT + families.SKIP_RULE_TEXT + " (zero counts are UNSPEC for the model: judged on 'no foreign exception' only)",
+             "a case is non-trivial when the reference run backtracked (incl. giving back trivia) or returned pairs" + families.EXTRA_RULE_TEXT + families.SKIP_RULE_TEXT + families.EXPLICIT_RULE_TEXT + "; plus atomic-backtrack: 15 helper rules (modifier normal/_/@/$/! x three bodies) called inside an abandoned alternative, an abandoned optional, & , !, an abandoned repetition iteration "
+             "and twice in an abandoned sequence, then called again and followed by \"b\" ~ \"b\", from normal/@/$/! start rules, with silent and non-silent WHITESPACE" + " (zero counts are UNSPEC for the model: judged on 'no foreign exception' only)",
         assumptions=["helper packs are fixed (five), not enumerated", "tags are not modelled"],
     )
 
